@@ -196,7 +196,8 @@ def check_gro_listing(spec, res, clause="gro"):
     if res.gro["n"] != len(want) or len(got) != len(want):
         raise Violation(f"{clause}:atom_count", f"{res.gro['n']} atoms listed, topology has {len(want)}")
     for i, (w, g) in enumerate(zip(want, got), start=1):
-        if (g["resid"], g["resname"], g["name"]) != (w[0], w[1], w[2]):
+        # a .gro line holds five characters of the residue and of the atom name
+        if (g["resid"], g["resname"], g["name"]) != (w[0], w[1][:5], w[2][:5]):
             raise Violation(f"{clause}:atom_identity", f"line {i}: {(g['resid'], g['resname'], g['name'])} expected {w[:3]}")
         if not all(math.isfinite(v) for v in g["xyz"]):
             raise Violation(f"{clause}:non_finite", f"line {i}: {g['xyz']}")
